@@ -1,8 +1,10 @@
 """C01 - default neighbour search returns exactly the pairs within max_edits."""
+import random
+import time
 import gens
-from gens import all_strings, repertoire, has_indel_pair, has_dup_pair
+from gens import all_strings, repertoire, has_indel_pair, has_dup_pair, canon_triplets, canon_model, diff_triplets, shrink_list, mutate
 from searchlib import Case, run_cases
-from core import call_impl
+from core import call_impl, jsonable
 
 
 # alphabets outside ACDEFGHIKLMNPQRSTVWY (round 3): ambiguity codes / stop marker, remaining capitals, lowercase,
@@ -92,6 +94,12 @@ def run(ctx):
         cases.append(mk(fn, fname, seqs, k, 'api_symdel_self_lev' if small else 'api_brute_self_lev'))
     run_cases(ctx, cases, vm_every=9)
 
+    # (d)-(l) [audit round] input kinds the generators above never produce: containers, ignored options, the default and large
+    # max_edits, long strings, collections of more than 2**15 strings, big buckets, repeated calls on one object
+    t_wide = time.time()
+    run_wide(ctx)
+    ctx.extra['widened_families_wall_s'] = round(time.time() - t_wide, 1)
+
     # auxiliary: the deletion-variant generator against comb_gen (only if the helper still exists)
     cg = getattr(nn, '_comb_gen', None)
     if cg is not None:
@@ -112,9 +120,556 @@ def run(ctx):
 def replay(ctx, obj):
     import pyrepseq.nn as nn
     r = obj['replay']
+    if 'spec' in r:                      # a case of the widened families: the spec carries function, container, options, k
+        run_specs(ctx, [r['spec']], shrink=False)
+        return
+    if 'history' in r:
+        run_histories(ctx, [r['history']])
+        return
     seqs = r['seqs']
     k = r['request'][1][0]
     # replay through the public function that failed (nearest_neighbor need not be the same code path as symdel)
     fn = nn.nearest_neighbor if str(r.get('case', '')).startswith('nearest_neighbor') else nn.symdel
     c = Case('replay', lambda: fn(list(seqs), max_edits=k), ('api_brute_self_lev', [k, seqs]), seqs=seqs, site='nn.symdel')
     run_cases(ctx, [c])
+
+
+# =====================================================================================================================
+# Audit round: widened input kinds.  Every case of these families is a JSON-able "spec" of ONE public call
+#   dict(family=..., fn='symdel'|'nearest_neighbor', via='nn'|'top', container=<kind>, salt=<int>, seqs=[...], k=<int>,
+#        how='kw'|'pos'|'allkw'|'fullpos'|'default', opts={option: value}, expect='oracle'|'blocks'|'dp')
+# so that a replay carries the function, the container kind, every option and the way the arguments were passed.
+# Expected values: 'oracle' = the extracted model (all_pairs_self, proved = the bucket-pairing model by C01_brute_force_agrees);
+# 'blocks' = the same model run on every class of positions connected by shared letters, pairs across classes being no
+# neighbours by C01_no_common_letter_not_neighbours (every string longer than max_edits) - this is what makes collections of
+# more than 2**15 strings decidable; 'dp' = the Wagner-Fischer recurrence (the statement of slev, lib/Edits.v wlev_cons)
+# evaluated row by row in numpy for strings too long for the unary-number oracle, cross-checked against api_lev on every run.
+INF = float('inf')
+OPT_ORDER = ['max_returns', 'n_cpu', 'custom_distance', 'max_custom_distance', 'output_type', 'seqs2', 'progress']
+OPT_DEFAULT = dict(max_returns=None, n_cpu=1, custom_distance=None, max_custom_distance=INF, output_type='triplets',
+                   seqs2=None, progress=False)
+CONTAINERS = ['tuple', 'ndarray_U', 'ndarray_Uwide', 'ndarray_object', 'ndarray_strided', 'ndarray_U_strided', 'list_npstr',
+              'list_mixed_npstr', 'series_default', 'series_shifted', 'series_permuted', 'series_reversed', 'series_string_index',
+              'series_dup_labels', 'series_float_index', 'series_string_dtype', 'series_categorical', 'pd_index', 'deque']
+
+
+def make_container(kind, seqs, salt=0):
+    """The same strings in the same order as another kind of collection (positions = order of iteration)."""
+    import collections
+    import numpy as np
+    import pandas as pd
+    seqs = [str(x) for x in seqs]
+    n = len(seqs)
+    if kind == 'list':
+        return seqs
+    if kind == 'tuple':
+        return tuple(seqs)
+    if kind == 'ndarray_U':
+        return np.array(seqs)
+    if kind == 'ndarray_Uwide':
+        return np.array(seqs, dtype='<U%d' % (max(map(len, seqs)) + 37))
+    if kind in ('ndarray_object', 'ndarray_strided'):
+        a = np.empty(n if kind == 'ndarray_object' else 2 * n, dtype=object)
+        if kind == 'ndarray_object':
+            a[:] = seqs
+            return a
+        a[::2] = seqs
+        a[1::2] = 'zz'
+        return a[::2]
+    if kind == 'ndarray_U_strided':
+        return np.array([y for x in seqs for y in (x, 'zzzz')])[::2]
+    if kind == 'list_npstr':
+        return [np.str_(x) for x in seqs]
+    if kind == 'list_mixed_npstr':
+        return [np.str_(x) if i % 2 else x for i, x in enumerate(seqs)]
+    if kind == 'pd_index':
+        return pd.Index(seqs, dtype=object)
+    if kind == 'deque':
+        return collections.deque(seqs)
+    perm = list(range(n))
+    random.Random(salt * 7919 + n).shuffle(perm)
+    index = dict(series_default=None, series_shifted=range(5, 5 + n), series_permuted=perm, series_reversed=range(n - 1, -1, -1),
+                 series_string_index=['r%d' % i for i in perm], series_dup_labels=[i // 2 for i in range(n)],
+                 series_float_index=[0.5 * i - 1 for i in range(n)], series_string_dtype=perm, series_categorical=None)
+    if kind not in index:
+        raise ValueError(kind)
+    dtype = {'series_string_dtype': 'string', 'series_categorical': 'category'}.get(kind, object)
+    return pd.Series(seqs, index=index[kind], dtype=dtype)
+
+
+def k_eff(spec):
+    """max_edits in force: the documented default is 1 when the caller does not pass it."""
+    return 1 if spec.get('how') == 'default' else spec['k']
+
+
+def spec_call(spec):
+    """Run the public call a spec describes on the current tree."""
+    import pyrepseq
+    import pyrepseq.nn as nn
+    fn = getattr(pyrepseq if spec.get('via') == 'top' else nn, spec['fn'])
+    c = make_container(spec.get('container', 'list'), spec['seqs'], spec.get('salt', 0))
+    k, opts, how = spec.get('k'), dict(spec.get('opts') or {}), spec.get('how', 'kw')
+    if how == 'default':
+        return fn(c, **opts)
+    if how == 'kw':
+        return fn(c, max_edits=k, **opts)
+    if how == 'pos':
+        return fn(c, k, **opts)
+    if how == 'allkw':
+        return fn(seqs=c, max_edits=k, **opts)
+    if how == 'fullpos':
+        order = OPT_ORDER if spec['fn'] == 'symdel' else OPT_ORDER[:-1]
+        return fn(c, k, *[opts.get(name, OPT_DEFAULT[name]) for name in order])
+    raise ValueError(how)
+
+
+def letter_classes(seqs):
+    """Positions grouped by the transitive closure of 'the two strings share a letter' (an empty string is alone)."""
+    parent = {}
+
+    def find(x):
+        while parent[x] != x:
+            parent[x] = parent[parent[x]]
+            x = parent[x]
+        return x
+    for s in seqs:
+        for c in s:
+            parent.setdefault(c, c)
+        for c in s[1:]:
+            ra, rb = find(s[0]), find(c)
+            if ra != rb:
+                parent[ra] = rb
+    groups = {}
+    for i, s in enumerate(seqs):
+        groups.setdefault(find(s[0]) if s else ('', i), []).append(i)
+    return list(groups.values())
+
+
+def lev_rows(a, b):
+    """Levenshtein distance by the recurrence of lib/Edits.v (wlev_cons with unit weights), one numpy row per letter of a:
+    new[j] = min(old[j] + 1, old[j-1] + [a_i <> b_j], new[j-1] + 1); the last term is a running minimum of new[j] - j."""
+    import numpy as np
+    B = np.array([ord(c) for c in b], dtype=np.int64)
+    idx = np.arange(len(b) + 1, dtype=np.int64)
+    old = idx.copy()
+    for i, ca in enumerate(a, 1):
+        new = np.empty_like(old)
+        new[0] = i
+        new[1:] = np.minimum(old[1:] + 1, old[:-1] + (B != ord(ca)))
+        old = np.minimum.accumulate(new - idx) + idx
+    return int(old[-1])
+
+
+def expected_dp(seqs, k):
+    out = []
+    for i in range(len(seqs)):
+        for j in range(i + 1, len(seqs)):
+            if abs(len(seqs[i]) - len(seqs[j])) > k:        # lev_length_lower: never within k
+                continue
+            d = 0 if seqs[i] == seqs[j] else lev_rows(seqs[i], seqs[j])
+            if d <= k:
+                out += [(i, j, d), (j, i, d)]
+    return canon_model(out)
+
+
+def expected_batch(ctx, specs):
+    """Expected canonical triplet lists of a batch of specs; identical oracle requests are sent once."""
+    reqs, index, plans = [], {}, []
+
+    def want(k, ss):
+        key = (k, tuple(ss))
+        if key not in index:
+            small = len(ss) <= 12 and k <= 2 and max(map(len, ss)) <= 12
+            index[key] = len(reqs)
+            reqs.append(('api_symdel_self_lev' if small and len(reqs) % 2 else 'api_brute_self_lev', [k, list(ss)]))
+        return index[key]
+    for sp in specs:
+        k, seqs, mode = k_eff(sp), sp['seqs'], sp.get('expect', 'oracle')
+        if mode == 'blocks' and any(len(x) <= k for x in seqs):
+            mode = 'oracle'          # the lemma needs every string longer than max_edits; generators guarantee it
+        if mode == 'oracle':
+            plans.append(('o', want(k, seqs)))
+        elif mode == 'blocks':
+            plans.append(('b', [(pos, want(k, [seqs[p] for p in pos])) for pos in letter_classes(seqs) if len(pos) > 1]))
+        else:
+            plans.append(('d', None))
+    outs = ctx.oracle.run_parallel(reqs, nproc=4) if reqs else []
+    for o in outs:
+        if isinstance(o, Exception):
+            raise o
+    res = []
+    for sp, (mode, plan) in zip(specs, plans):
+        if mode == 'o':
+            res.append(canon_model(outs[plan]))
+        elif mode == 'b':
+            acc = []
+            for pos, r in plan:
+                acc += [(pos[a], pos[b], d) for a, b, d in outs[r]]
+            res.append(canon_model(acc))
+        else:
+            res.append(expected_dp(sp['seqs'], k_eff(sp)))
+    return res
+
+
+def _canon_impl(got):
+    if got[0] != 'ok':
+        return False, got
+    try:
+        return True, canon_triplets(got[1])
+    except Exception as e:
+        return False, ('exc', 'unreadable result: %r' % (e,))
+
+
+def spec_desc(sp):
+    return '%s%s[%s] container=%s how=%s k=%s opts=%s n=%d' % (
+        'pyrepseq.' if sp.get('via') == 'top' else 'nn.', sp['fn'], sp.get('family', '?'), sp.get('container', 'list'),
+        sp.get('how', 'kw'), sp.get('k'), sp.get('opts') or {}, len(sp['seqs']))
+
+
+def spec_fails(ctx, sp):
+    exp = expected_batch(ctx, [sp])[0]
+    ok, impl = _canon_impl(call_impl(spec_call, sp))
+    return not (ok and impl == exp)
+
+
+def shrink_spec(ctx, sp, impl, exp):
+    """Fewer strings with the same function, container kind and options still failing."""
+    seqs = sp['seqs']
+    if isinstance(impl, list):
+        d = diff_triplets(impl, exp)
+        for t in (d['missing'] + d['spurious'] + d['repeated'])[:4]:
+            i, j = sorted((t[0], t[1]))
+            if 0 <= i < j < len(seqs):
+                cand = dict(sp, seqs=[seqs[i], seqs[j]])
+                try:
+                    if spec_fails(ctx, cand):
+                        return cand
+                except Exception:
+                    pass
+    n = len(seqs)
+    steps = 300 if n <= 400 else (60 if n <= 5000 else 24)
+    try:
+        return dict(sp, seqs=shrink_list(seqs, lambda ss: spec_fails(ctx, dict(sp, seqs=ss)), max_steps=steps))
+    except Exception:
+        return sp
+
+
+def run_specs(ctx, specs, shrink=True):
+    exps = expected_batch(ctx, specs)
+    nviol = 0
+    for sp, exp in zip(specs, exps):
+        ok, impl = _canon_impl(call_impl(spec_call, sp))
+        nt = len(exp) > 0
+        desc = spec_desc(sp)
+        ctx.count('wide:%s' % sp.get('family', '?'))
+        ctx.case(sample=dict(case=desc, seqs=[x[:40] for x in sp['seqs'][:12]] + (['...'] if len(sp['seqs']) > 12 else []),
+                             result=[(a, b, str(d)) for a, b, d in exp[:8]]) if nt else None,
+                 nontrivial_key=(desc, len(exp), tuple(sp['seqs'][:50])) if nt else None)
+        if ok and impl == exp:
+            continue
+        nviol += 1
+        if nviol > 3:
+            continue
+        small = shrink_spec(ctx, sp, impl, exp) if shrink else sp
+        e2 = expected_batch(ctx, [small])[0]
+        ok2, impl2 = _canon_impl(call_impl(spec_call, small))
+        if ok2 and impl2 == e2:                      # not reproducible on the shrunk input (state dependent): keep the original
+            small, e2, ok2, impl2 = sp, exp, ok, impl
+        detail = diff_triplets(impl2, e2) if ok2 else impl2
+        shown = small['seqs'] if len(small['seqs']) <= 30 else small['seqs'][:30] + ['... (%d strings)' % len(small['seqs'])]
+        ctx.violation('property', '%s: implementation differs from the proved model on %s: %s' %
+                      (spec_desc(small), [x if len(x) <= 300 else x[:300] + '...(%d letters)' % len(x) for x in shown],
+                       jsonable(detail)),
+                      dict(case=spec_desc(small), spec=jsonable(small), seqs=small['seqs'], detail=jsonable(detail),
+                           request=['api_brute_self_lev', [k_eff(small), small['seqs']]]), site='nn.symdel')
+    return nviol
+
+
+# ---- repeated calls on one object ------------------------------------------------------------------------------------
+# history = dict(container=<kind>, salt=.., init=[...], steps=[step, ...]) with steps
+#   ['call', fn, k, opts]   a C01 call on the object as it is now (compared with the model)
+#   ['set', i, s] ['append', s] ['delete', i] ['reverse'] ['refill', [...]]   the caller changes the object in place
+#   ['other', name, k]      another public function of the module runs on the same strings in between (result not judged here)
+def _apply_step(obj, cur, st):
+    kind = st[0]
+    is_series = type(obj).__module__.startswith('pandas')
+    if kind == 'set':
+        cur[st[1]] = st[2]
+        if is_series:
+            obj.iloc[st[1]] = st[2]
+        else:
+            obj[st[1]] = st[2]
+    elif kind == 'append':
+        cur.append(st[1])
+        obj.append(st[1])
+    elif kind == 'delete':
+        del cur[st[1]]
+        del obj[st[1]]
+    elif kind == 'reverse':
+        cur.reverse()
+        if isinstance(obj, list):
+            obj.reverse()
+        elif is_series:
+            obj.iloc[:] = list(cur)
+        else:
+            obj[:] = list(cur)
+    elif kind == 'refill':
+        cur[:] = list(st[1])
+        if is_series:
+            obj.iloc[:] = list(st[1])
+        else:
+            obj[:] = list(st[1])
+
+
+def _other_call(name, cur, k):
+    import pyrepseq.nn as nn
+    cur = list(cur)
+    aa = [x for x in cur if x and set(x) <= set(gens.AA)] or ['CAF']
+    f = dict(hash_based=lambda: nn.hash_based(aa, max_edits=1),
+             kdtree=lambda: nn.kdtree(aa, max_edits=k),
+             symdeldb=lambda: nn.SymdelDB(cur, k + 1).lookup(cur[:3]),
+             symdel_hamming=lambda: nn.symdel(cur, max_edits=k, custom_distance='hamming'),
+             symdel_seqs2=lambda: nn.symdel(cur, max_edits=k, seqs2=list(reversed(cur))),
+             nn_seqs2=lambda: nn.nearest_neighbor(cur[:4], max_edits=k + 2, seqs2=cur),
+             nn_ndarray=lambda: nn.nearest_neighbor(cur, max_edits=k, output_type='ndarray'),
+             nn_coo=lambda: nn.nearest_neighbor(cur, max_edits=k, output_type='coo_matrix'),
+             symdel_custom=lambda: nn.symdel(cur, max_edits=k, custom_distance=lambda a, b: abs(len(a) - len(b)),
+                                             max_custom_distance=1),
+             rejected=lambda: nn.symdel(cur, max_edits=0))[name]
+    call_impl(f)
+
+
+def run_histories(ctx, hists):
+    import pyrepseq.nn as nn
+    # first pass on plain lists: what the object holds at every C01 call
+    plans = []
+    for h in hists:
+        cur, calls = list(h['init']), []
+        for st in h['steps']:
+            if st[0] == 'call':
+                calls.append(dict(family='history', fn=st[1], k=st[2], opts=st[3], seqs=list(cur)))
+            elif st[0] != 'other':
+                _apply_step(list(cur), cur, st)
+        plans.append(calls)
+    flat = [c for calls in plans for c in calls]
+    exps = iter(expected_batch(ctx, flat))
+    for h, calls in zip(hists, plans):
+        obj = make_container(h['container'], h['init'], h.get('salt', 0))
+        cur, ncall, bad = list(h['init']), 0, None
+        for si, st in enumerate(h['steps']):
+            if st[0] == 'call':
+                exp = next(exps)
+                ncall += 1
+                ok, impl = _canon_impl(call_impl(getattr(nn, st[1]), obj, max_edits=st[2], **(st[3] or {})))
+                ctx.case(nontrivial_key=('history', si, tuple(cur[:40]), st[1], st[2]) if exp else None)
+                if not (ok and impl == exp) and bad is None:
+                    bad = (si, diff_triplets(impl, exp) if ok else impl, list(cur))
+            elif st[0] == 'other':
+                _other_call(st[1], cur, st[2])
+            else:
+                _apply_step(obj, cur, st)
+        ctx.count('wide:history[%s]' % h['container'])
+        ctx.count('wide:history calls', ncall)
+        if bad is not None:
+            si, detail, held = bad
+            ctx.violation('property', 'call history on ONE %s object: step %d %r returned a result that differs from the proved model '
+                          'for the strings the object held at that moment %s: %s (steps before it: %s)' %
+                          (h['container'], si, h['steps'][si], held[:30], jsonable(detail), jsonable(h['steps'][:si])[-12:]),
+                          dict(case='history', history=jsonable(h), failing_step=si, seqs=held, detail=jsonable(detail)),
+                          site='nn.symdel')
+
+
+# ---- generators of the widened families --------------------------------------------------------------------------------
+def block_alphabet(b):
+    """Three letters of block b; different blocks share no letter: six blocks of amino-acid letters, then consecutive code
+    points from U+0100 (Latin, Greek, Cyrillic, ..., CJK; stops before the surrogates), then from U+10000 (astral planes)."""
+    aa = ['ACD', 'EFG', 'HIK', 'LMN', 'PQR', 'STV']
+    if b < len(aa):
+        return aa[b]
+    start = 0x100 + 3 * (b - len(aa))
+    if start + 2 >= 0xD800:
+        start = 0x10000 + 3 * (b - len(aa) - (0xD800 - 0x100) // 3)
+    return chr(start) + chr(start + 1) + chr(start + 2)
+
+
+def block_collection(rng, n, k):
+    """n strings in blocks over pairwise DISJOINT alphabets (3 letters each), every string longer than k, shuffled:
+    neighbours exist only inside a block (C01_no_common_letter_not_neighbours)."""
+    seqs, b = [], 0
+    while len(seqs) < n:
+        al = block_alphabet(b)
+        b += 1
+        root = ''.join(rng.choice(al) for _ in range(k + rng.randint(1, 4)))
+        for _ in range(rng.randint(1, 11)):
+            x = mutate(rng, root, al, rng.randint(0, k + 1)) if rng.random() < 0.8 else \
+                ''.join(rng.choice(al) for _ in range(k + rng.randint(1, 4)))
+            if len(x) > k:
+                seqs.append(x)
+    seqs = seqs[:n]
+    rng.shuffle(seqs)
+    return seqs
+
+
+def long_family(rng, L, k, alphabet):
+    """Strings of about L letters: a root, planted edits at the ends and around the machine-word boundaries 64/128/256,
+    pairs exactly k and k+1 edits apart, a rotation (equal length, 2 edits), an unrelated string of the same length."""
+    root = ''.join(rng.choice(alphabet) for _ in range(L))
+
+    def other(c):
+        return rng.choice([x for x in alphabet if x != c])
+
+    def sub(s, p):
+        return s[:p] + other(s[p]) + s[p + 1:]
+    marks = sorted({0, L - 1, L // 2} | {p for p in (62, 63, 64, 65, 126, 127, 128, 129, 254, 255, 256, 257) if p < L})
+    out = [root, root, sub(root, 0), sub(root, L - 1), root[1:], root[:-1], other(root[0]) + root, root + other(root[-1]),
+           root[1:] + root[0], root[::-1]]
+    for p in rng.sample(marks, min(4, len(marks))):
+        out += [sub(root, p), root[:p] + root[p + 1:], root[:p] + other(root[p]) + root[p:]]
+    x = root
+    for t, p in enumerate(rng.sample(range(L), min(k + 1, L))):     # k and k + 1 substitutions
+        x = sub(x, p)
+        if t + 1 >= k:
+            out.append(x)
+    out += [''.join(rng.choice(alphabet) for _ in range(L)), '', root[:1], root[:k + 1]]     # and a few short ones in the same call
+    rng.shuffle(out)
+    return out
+
+
+def run_wide(ctx):
+    rng = ctx.rng
+    quick = ctx.quick
+    specs = []
+
+    def add(family, fn, seqs, k, **kw):
+        sp = dict(family=family, fn=fn, seqs=list(seqs), k=k)
+        sp.update(kw)
+        specs.append(sp)
+    fns = ['nearest_neighbor', 'symdel']
+
+    def small_rep(lo=6, hi=24):
+        alpha = gens.AA if rng.random() < 0.6 else rng.choice(NON_AA_ALPHABETS)
+        return repertoire(rng, rng.randint(lo, hi), alpha)
+
+    # (d) container kinds: the same strings as tuple / ndarray (unicode, wide unicode, object, strided views) / lists of
+    # numpy strings / pandas Series with default, shifted, permuted, reversed, string, duplicated, float labels, string and
+    # categorical dtype / pandas Index / deque.  Positions are positions of iteration, never labels.
+    for r in range(5 if quick else 40):
+        seqs = small_rep()
+        kinds = list(CONTAINERS)
+        rng.shuffle(kinds)
+        for t, kind in enumerate(kinds):
+            add('container=' + kind, fns[(t + r) % 2], seqs, rng.choice([1, 2, 2, 3]), container=kind, salt=rng.randrange(1000),
+                via='top' if t % 3 == 0 else 'nn')
+    # (e) parameters documented as ignored by this search (n_cpu; max_custom_distance without a custom distance; for symdel
+    # also max_returns and progress), defaults passed explicitly, two of them together, and every way of passing them
+    both = [dict(n_cpu=2), dict(n_cpu=3), dict(n_cpu=16), dict(max_custom_distance=0), dict(max_custom_distance=0.5),
+            dict(max_custom_distance=1), dict(max_custom_distance=2.0), dict(custom_distance=None), dict(output_type='triplets'),
+            dict(seqs2=None), dict(max_returns=None), dict(n_cpu=2, max_custom_distance=0),
+            dict(n_cpu=4, output_type='triplets', seqs2=None), dict(custom_distance=None, max_custom_distance=1)]
+    only_symdel = [dict(max_returns=1), dict(max_returns=2), dict(max_returns=7), dict(progress=True), dict(progress=False),
+                   dict(max_returns=2, n_cpu=2), dict(max_returns=1, max_custom_distance=0), dict(progress=True, n_cpu=2),
+                   dict(max_returns=3, progress=True)]
+    for r in range(3 if quick else 30):
+        seqs = small_rep(10, 30)
+        for t, o in enumerate(both):
+            add('ignored-option', fns[(t + r) % 2], seqs, rng.choice([2, 2, 3]), opts=o, how=['kw', 'pos', 'allkw'][t % 3],
+                via='top' if t % 2 else 'nn', salt=t,
+                container=rng.choice(['list', 'list', 'tuple', 'ndarray_U', 'ndarray_object', 'series_permuted', 'series_string_index']))
+        for t, o in enumerate(only_symdel):
+            add('ignored-option(symdel)', 'symdel', seqs, rng.choice([1, 2, 3]), opts=o, how=['kw', 'pos', 'allkw', 'fullpos'][t % 4])
+        # all arguments by position, with values that tell the slots apart (a swap in the forwarding raises or changes the result)
+        for fn in fns:
+            add('all-positional', fn, seqs, rng.choice([1, 2, 3]), how='fullpos', opts=dict(n_cpu=2, max_custom_distance=0.5))
+            add('all-positional', fn, seqs, 2, how='fullpos', opts={})
+            # max_edits not passed: the documented default 1
+            add('default-max_edits', fn, seqs, None, how='default', via='top')
+            add('default-max_edits', fn, seqs, None, how='default', opts=dict(n_cpu=2), container='tuple')
+    # (f) max_edits far above the usual 1..4, up to values above every string length (then every pair is a neighbour pair)
+    for r in range(2 if quick else 12):
+        al = rng.choice(['AC', 'ACD', 'CASF', 'xy*'])
+        seqs = [''.join(rng.choice(al) for _ in range(rng.randint(0, 9))) for _ in range(rng.randint(4, 14))]
+        seqs += [rng.choice(seqs), al[0] * 9, al[-1] * 8, '']
+        rng.shuffle(seqs)
+        for t, k in enumerate([5, 6, 8] + [rng.choice([7, 9, 10, 12]), rng.choice([16, 33, 64, 100]), rng.choice([255, 256, 1000])]):
+            add('large-max_edits', fns[(t + r) % 2], seqs, k, how=['kw', 'pos'][t % 2])
+    # (g) bucket shapes: one sequence many times (a distance-0 clique), every substitution / insertion at one position
+    # (one bucket with dozens of members), all strings of one length, all lengths distinct, nothing within reach, n = 1, n = 2
+    star_al = gens.AA + 'XBZ*acd'
+    root = 'CASS' + ''.join(rng.choice(gens.AA) for _ in range(rng.randint(2, 5))) + 'F'
+    p = rng.randrange(1, len(root) - 1)
+    star = [root] + [root[:p] + c + root[p + 1:] for c in star_al] + [root[:p] + c + root[p:] for c in star_al[:9]] + [root[:p] + root[p + 1:]]
+    rng.shuffle(star)
+    far = ['A' * 6, 'C' * 9, 'D' * 12, 'EFGH' * 4, 'KLMN' * 2]
+    shapes = [('clique', [root] * (40 if quick else 90)), ('clique', [''] * 17 + ['A'] * 3), ('star', star),
+              ('one-length', [''.join(rng.choice('AC') for _ in range(6)) for _ in range(45)]),
+              ('distinct-lengths', ['A' * i for i in rng.sample(range(0, 26), 20)]),
+              ('nothing-in-reach', far), ('n=1', ['']), ('n=1', ['A']), ('n=1', [root]), ('n=2', [root, root]), ('n=2', ['', '']),
+              ('n=2', [root, root[1:]]), ('n=2', ['', 'A']), ('n=2', [root, root[::-1] + 'WW']), ('n=2', ['A', 'C'])]
+    for t, (name, seqs) in enumerate(shapes):
+        for k in ((1, 2) if quick else (1, 2, 3)):
+            if name == 'nothing-in-reach' and k > 2:
+                continue
+            add('shape=' + name, fns[(t + k) % 2], seqs, k, container=['list', 'tuple', 'ndarray_U', 'series_permuted'][(t + k) % 4],
+                salt=t)
+    # (h) strings with control characters, quotes, whitespace at the ends, combining marks (lists only: numpy's fixed-width
+    # unicode type strips trailing NULs, which is numpy's doing, not the search's)
+    for t, al in enumerate(['\n\x00', '\t"', "\\'", 'e\u0301', ' A', '\r\x7f', '\u200bA', 'aA', '\xe9e\u0301']):
+        b2 = all_strings(al, 3)
+        seqs = b2 + rng.sample(b2, 6)
+        rng.shuffle(seqs)
+        for k in (1, 2):
+            add('control-characters', fns[(t + k) % 2], seqs, k)
+    # (i) long strings: 63..65, 127..129, 255..257 letters (machine-word boundaries of bit-parallel edit distance code),
+    # about 1000 letters for max_edits = 1; few-letter alphabets give long runs, 20 letters give none
+    lens = [(64, 1, 'oracle'), (65, 2, 'dp'), (63, 2, 'dp'), (128, 1, 'dp'), (127, 2, 'dp'), (129, 1, 'dp'), (256, 1, 'dp'), (257, 1, 'dp')]
+    if not quick:
+        lens += [(64, 3, 'dp'), (129, 2, 'dp'), (255, 2, 'dp'), (300, 1, 'dp'), (1000, 1, 'dp'), (1024, 1, 'dp'), (2049, 1, 'dp'),
+                 (70, 2, 'oracle')]
+    for t, (L, k, how) in enumerate(lens):
+        seqs = long_family(rng, L, k, 'AC' if t % 3 == 0 else gens.AA)
+        if how == 'oracle':
+            seqs = seqs[:9]
+        elif (k >= 2 and L > 130) or L > 1500:      # the search itself stores about L**k deletion variants of L letters per string
+            seqs = seqs[:8]
+        add('long-strings L=%d' % L, fns[t % 2], seqs, k, expect=how, container='list' if t % 4 else 'ndarray_U')
+    # (j) many strings: 257, about 1100, more than 2**15 and more than 2**16 positions in one call
+    sizes = [(257, 2), (1100, 1), (2 ** 15 + 37, 1), (2 ** 16 + 21, 1)] if quick else [(256, 3), (257, 2), (1100, 2), (4097, 3), (2 ** 15 + 37, 2),
+                                                                 (2 ** 16 + 21, 1)]
+    for t, (n, k) in enumerate(sizes):
+        add('many-strings n=%d' % n, fns[t % 2], block_collection(rng, n, k), k, expect='blocks',
+            container='list' if n < 2000 or t % 2 else 'ndarray_object')
+
+    # the row-wise recurrence used for long strings agrees with the model's distance (api_lev) on fresh pairs
+    pairs = []
+    for _ in range(30):
+        a = ''.join(rng.choice('ACD') for _ in range(rng.randint(0, 30)))
+        pairs.append((a, mutate(rng, a, 'ACD', rng.randint(0, 6))))
+    outs = ctx.oracle.run([('api_lev', [a, b]) for a, b in pairs])
+    for (a, b), o in zip(pairs, outs):
+        if lev_rows(a, b) != o:
+            raise RuntimeError('harness self-check: lev_rows(%r, %r) = %d, model says %r' % (a, b, lev_rows(a, b), o))
+    run_specs(ctx, specs)
+
+    # (k)/(l) repeated calls on ONE object: other max_edits, the object changed in place in between, other public functions of
+    # the module run in between (they share the module's globals)
+    hists = []
+    others = ['hash_based', 'kdtree', 'symdeldb', 'symdel_hamming', 'symdel_seqs2', 'nn_seqs2', 'nn_ndarray', 'nn_coo',
+              'symdel_custom', 'rejected']
+    for r in range(12 if quick else 60):
+        seqs = small_rep(8, 20)
+        extra = small_rep(8, 20)
+        kind = ['list', 'ndarray_object', 'ndarray_Uwide', 'series_permuted', 'list', 'series_string_index'][r % 6]
+        steps = [['call', fns[r % 2], 1, {}], ['call', fns[(r + 1) % 2], 3, {}], ['call', fns[r % 2], 1, {}]]
+        steps += [['set', 0, seqs[-1]], ['call', fns[r % 2], 2, {}]]
+        steps += [['other', rng.choice(others), rng.choice([1, 2, 3])], ['call', fns[(r + 1) % 2], rng.choice([1, 2]), {}]]
+        if kind == 'list':
+            steps += [['append', rng.choice(seqs)], ['delete', 1], ['call', fns[r % 2], 2, dict(n_cpu=2)]]
+        steps += [['reverse'], ['call', 'symdel', 2, {}]]
+        if kind != 'list':          # arrays and Series are refilled with as many strings as they hold
+            steps += [['refill', [x[:30] for x in (extra * 3)[:len(seqs)]]], ['call', fns[r % 2], rng.choice([1, 2, 3]), {}]]
+        else:
+            steps += [['refill', extra], ['call', fns[r % 2], rng.choice([1, 2, 3]), {}]]
+        for name in rng.sample(others, 3):
+            steps += [['other', name, rng.choice([1, 2, 3])], ['call', rng.choice(fns), rng.choice([1, 2, 3]), {}]]
+        hists.append(dict(container=kind, salt=r, init=seqs, steps=steps))
+    run_histories(ctx, hists)
